@@ -5,6 +5,22 @@ HERE = os.path.dirname(os.path.dirname(os.path.abspath(__file__)))
 
 # id -> (technique, level text, level note, design ref)
 CHECKS = {
+ "C06": ("exhaustive enumeration + PBT against transcriptions of TeX's arithmetic: all scaled values (thorough) print/scan round trip; proptest-generated register programs vs scan_int/scan_dimen/scan_glue/arithmetic models",
+         "Every scaled value with |s|<=2^30-1 (thorough; quick: |s|<=2^20, all multiples of 65537, powers of two +-2, 2M random): Display equals print_scaled, parse_no_units and parse_from_string invert it, <=5 digits and no shorter fraction scans back. Random programs of assignments, coercions, \\advance/\\multiply/\\divide over count/dimen/skip registers with constants in every radix/unit, 0-20 fraction digits, sign strings, internal quantities as values and units, fil/fill/filll: \\the output after every operation and presence of recoverable errors must equal the model.",
+         "Trusted: models/tex_arith.rs (transcribed from tex.web 99-108, 440-461, 1236-1240; xn_over_d cross-checked against exact i128 arithmetic on every call), proptest. Operand values on which TeX negates -2^31 are skipped; recovery after a missing number is only required to report an error.",
+         "DESIGN.md §4 C06"),
+ "C13": ("PBT + exhaustive small scope against a naive Liang matcher (reference model), calibrated on the crate's goldens",
+         "Random pattern sets (digits 0-9 anywhere, anchors, >16 and >32 letters), exception lists loaded before/after the patterns, words of length 1-40 in mixed case with custom lower-case maps; exhaustive pool pairs x all words of length<=6 over 3 letters; plain TeX patterns on pseudo-English words. calculate_indices must equal: exception positions if the lower-cased word is listed, otherwise odd maxima of all pattern matches, never position 0.",
+         "Trusted: models/liang.rs (naive matcher written from TeX 919-931, reproduces the crate's 23 goldens), proptest. Words containing a non-letter: either TeX's reading (word ends there) or the unknown-character reading is accepted.",
+         "DESIGN.md §4 C13"),
+ "C15": ("PBT + exhaustive small scope against a reference hpack with exact rational glue ratios, calibrated on TeX-generated box goldens",
+         "Random lists (chars, ligatures, kerns, rules incl. running dimensions, shifted nested boxes, penalties, discretionaries, glue of all four orders with positive/zero/negative/cancelling amounts) x targets natural, +-1sp, +-total, +-total+-1sp, random, Exact and Additional; every list of <=3 glue items over 4 amounts x 4 orders x excess -5..5 exhaustively. Width, height, depth, glue order and |ratio| (cross-multiplied in i128) must equal the model; fill identity natural+ratio*total==width.",
+         "Trusted: models/hpack.rs (TeX 649-667 with per-order totals), proptest. Mark/insertion/adjust/math/whatsit/leader nodes are documented unimplemented and not generated.",
+         "DESIGN.md §4 C15"),
+ "C16": ("round-trip PBT + independent DVI codec (differential) + byte-level totality incl. exhaustive short strings + DVItype-style position tracker (reference model) for VarRemover",
+         "Random op sequences (every variant, operands at every 1/2/3/4-byte boundary, strings of 0..255 UTF-8 bytes): deserialize(serialize(ops))==ops, all bytes consumed, and the bytes read by an independent codec written from the DVI command table give the same ops; boundary sweep +-130 around each boundary; 300k random/mutated byte strings and all strings of length<=2 (<=3 thorough): ops or documented error exactly as the independent decoder predicts, never a panic; VarRemover: same (page,h,v,font,char|rule) events and same other ops in order, no w/x/y/z op left, dvi::Values agrees with the tracker after every op.",
+         "Trusted: models/dvi_track.rs (codec + tracker from TeX 585-591 / DVItype), proptest. post_post is written id-first by this crate (DVI: pointer first); the round trip holds for that layout, so the independent codec accepts it (observation in DESIGN.md). Positions are kept inside i32.",
+         "DESIGN.md §4 C16"),
  "C02": ("PBT against a reference model: proptest-generated macro definitions and calls, captured one-step expansion compared with a transcription of TeX's macro_call",
          "Random parameter texts (prefix, up to 9 parameters, delimiters of 1-3 tokens drawn from the same alphabet as the arguments so partial matches occur, optional #{), replacement texts (literals, #n, ##, groups) and argument tuples of all stated shapes; the unexpanded tokens after exactly one expansion (braces and tail included) must equal the model's.",
          "Trusted: the transcription of TeX 389-399 on token lists (DESIGN.md A.2), the canonical renderer (control symbols only, no adjacent spaces) whose output re-lexes to the generated tokens, proptest. Calls TeX rejects are outside the quantifier (skipped, counted).",
